@@ -17,6 +17,10 @@ DEFAULT_SLAB = 128 * 1024 * 1024
 
 
 def gen_world_case(rng) -> Dict[str, Any]:
+    """states[r] = [[app_key, key, leaf_desc], ...].  The app key "s" holds the replicated leaves (r*), private ones
+    (p*), keys one rank alone has (q<r>) and "rx" (matches the glob, not on every rank unless made so); optional
+    SIBLING app keys whose names merely start with "s" ("s_ema", "ss", "s2") hold rank-specific values under the SAME
+    key names on every rank - they must stay private whatever the glob on "s" looks like."""
     import gen
     import sim
     W = rng.choice([2, 2, 3])
@@ -29,31 +33,47 @@ def gen_world_case(rng) -> Dict[str, Any]:
                 d["data"] = (d["data"] + [0] * 2 * gen.numel(d["shape"]))[: 2 * gen.numel(d["shape"])]
             return d
         return {"t": "obj", "kind": rng.choice(["set", "tuple", "none", "counter"])}
+
+    glob = rng.choice([["s/r*"], ["s/r*"], ["s/r*", "s/zz"], [], ["s/**"], ["s/**"], ["s/*"], ["s/r*", "s_ema/zz*"]])
+    subtree = glob in (["s/**"], ["s/*"])          # everything under "s" that is on every rank is replicated
     n_rep = rng.randint(0, 3)
-    rep = [["r%d" % i, leaf()] for i in range(n_rep)]
+    rep = [["s", "r%d" % i, leaf()] for i in range(n_rep)]
     states = []
     for r in range(W):
-        priv = [["p%d" % i, leaf()] for i in range(rng.randint(0, 3))]
+        priv = [] if subtree else [["s", "p%d" % i, leaf()] for i in range(rng.randint(0, 3))]
         if rng.random() < 0.3:
-            priv.append(["q%d" % r, leaf()])           # a key this rank alone has
-        if rng.random() < 0.25:
-            priv.append(["rx", leaf()])                # matches the glob but is not on every rank / differs: stays private?
+            priv.append(["s", "q%d" % r, leaf()])           # a key this rank alone has
+        if rng.random() < 0.25 and not subtree:
+            priv.append(["s", "rx", leaf()])                # matches the glob but is not on every rank: stays private
         items = rep + priv
         rng.shuffle(items)
         states.append(items)
-    if rng.random() < 0.2:
-        # "rx" on every rank (then it is replicated and must carry the same value)
-        v = leaf()
-        for st in states:
-            st[:] = [it for it in st if it[0] != "rx"] + [["rx", v]]
-    else:
-        # drop "rx" from at least one rank so that it is private where present
-        k = rng.randrange(W)
-        states[k][:] = [it for it in states[k] if it[0] != "rx"]
+    if not subtree:
+        if rng.random() < 0.2:
+            v = leaf()                                       # "rx" on every rank: replicated, one shared value
+            for st in states:
+                st[:] = [it for it in st if it[1] != "rx"] + [["s", "rx", v]]
+        else:
+            k = rng.randrange(W)
+            states[k][:] = [it for it in states[k] if it[1] != "rx"]
+    if rng.random() < 0.5:
+        sib = rng.choice(["s_ema", "ss", "s2", "s%x"])
+        names = rng.sample(["w", "r0", "b", "r1"], rng.randint(1, 2))
+        for r in range(W):
+            for nm in names:
+                d = leaf()
+                if d.get("t") == "tensor" and d["data"]:
+                    d["data"][0] = (d["data"][0] & 0xF0) | (r + 1) if d["dtype"] != "bool" else d["data"][0]
+                states[r].append([sib, nm, d])
     kn = sim.rand_knobs(rng)
-    return {"world": W, "states": states, "glob": rng.choice([["s/r*"], ["s/r*"], ["s/r*", "s/zz"], []]),
+    return {"world": W, "states": states, "glob": glob,
             "knobs": kn, "restore_knobs": sim.rand_knobs(rng), "reverse": rng.random() < 0.5,
             "budget": rng.choice([1, 3, 8, 64, 10 ** 6])}
+
+
+def _norm_states(case):
+    """accept the older 2-field form [key, desc] (app key "s")"""
+    return [[(it if len(it) == 3 else ["s", it[0], it[1]]) for it in st] for st in case["states"]]
 
 
 def world_tie_case(ctx: Ctx, case: Dict[str, Any], suite: str):
@@ -68,10 +88,19 @@ def world_tie_case(ctx: Ctx, case: Dict[str, Any], suite: str):
     kn = case["knobs"]
     saved: List[Dict[str, Any]] = [None] * W   # type: ignore
 
+    states = _norm_states(case)
+    from flat_enc import enc as _enc  # noqa  (logical path component of an app key)
+
+    def trees_of(r):
+        out: Dict[str, Dict[str, Any]] = {}
+        for a, k, d in states[r]:
+            out.setdefault(a, {})[k] = gen.build_leaf(d)
+        return out
+
     def body(r, pg):
-        tree = {k: gen.build_leaf(d) for k, d in case["states"][r]}
-        saved[r] = gen.deep_clone(tree)
-        Snapshot.take(ROOT, {"s": gen.RecStateful(tree)}, pg=pg, replicated=case["glob"] or None)
+        trees = trees_of(r)
+        saved[r] = gen.deep_clone(trees)
+        Snapshot.take(ROOT, {a: gen.RecStateful(t) for a, t in trees.items()}, pg=pg, replicated=case["glob"] or None)
         return True
     with sim.knobs(**kn):
         res = world.run(body)
@@ -90,7 +119,9 @@ def world_tie_case(ctx: Ctx, case: Dict[str, Any], suite: str):
             ctx.fail("location-written-more-than-once", f"{raw} written by ranks {ws}", case, {"raw": raw, "ranks": ws}, suite=suite)
 
     # path ids: position in the sorted list of all logical paths of the job
-    all_paths = sorted({"s/" + k for st in case["states"] for k, _ in st})
+    def lp(a, k):
+        return _enc(a) + "/" + k
+    all_paths = sorted({lp(a, k) for st in states for a, k, _ in st})
     pid = {p: i for i, p in enumerate(all_paths)}
     rep_paths = sorted(p for p in all_paths if ("0/" + p) in manifest and getattr(manifest["0/" + p], "replicated", False))
 
@@ -134,8 +165,10 @@ def world_tie_case(ctx: Ctx, case: Dict[str, Any], suite: str):
     skip_model = False
     for r in range(W):
         ents, mst = [], []
-        for k, d in case["states"][r]:
-            p = "s/" + k
+        # flatten order of the rank: app keys in sorted order (Snapshot._gather_keys), items in dict order
+        order_r = [it for a in sorted({x[0] for x in states[r]}) for it in states[r] if it[0] == a]
+        for a, k, d in order_r:
+            p = lp(a, k)
             e = entry_for(r, p)
             if e is None:
                 ctx.fail("entry-missing", f"rank {r}: no manifest entry for {p}", case, {"rank": r, "path": p}, suite=suite)
@@ -143,7 +176,7 @@ def world_tie_case(ctx: Ctx, case: Dict[str, Any], suite: str):
             if isinstance(e, PrimitiveEntry):
                 continue
             ce = canon_entry(e, p, p in rep_paths)
-            v = saved[r][k]
+            v = saved[r][a][k]
             if ce is None:
                 # the manifest records something that is not a payload entry for a payload leaf (e.g. a container entry for
                 # an opaque object): outside the model; the restore oracle below decides whether the property is broken
@@ -241,9 +274,9 @@ def world_tie_case(ctx: Ctx, case: Dict[str, Any], suite: str):
 
     # oracle: real restore on every rank, independent knobs
     def rbody(r, pg):
-        dst = gen.RecStateful({k: None for k in saved[r]})
-        Snapshot(ROOT, pg=pg).restore({"s": dst})
-        return gen.deep_eq(saved[r], dst.loaded)
+        dst = {a: gen.RecStateful({k: None for k in t}) for a, t in saved[r].items()}
+        Snapshot(ROOT, pg=pg).restore(dst)
+        return gen.deep_eq(saved[r], {a: x.loaded for a, x in dst.items()})
     with sim.knobs(**case["restore_knobs"]):
         res2 = world.run(rbody)
     for r, x in enumerate(res2):
@@ -258,5 +291,8 @@ def world_tie_case(ctx: Ctx, case: Dict[str, Any], suite: str):
         ctx.count("world_tie.chunks_split_across_ranks")
     if slabs:
         ctx.count("world_tie.slabbed")
+    if any(a != "s" for st in states for a, _, _ in st):
+        ctx.count("world_tie.sibling_app_key")
+    ctx.count("world_tie.glob." + ("none" if not case["glob"] else case["glob"][0]))
     ctx.case(suite, {"world": W, "glob": case["glob"], "knobs": kn, "replicated": len(rep_paths), "units": n_units,
                      "states": gen.short(case["states"])}, nontrivial=n_units > 0, key=case)
